@@ -66,8 +66,10 @@ CLAIMS = {
        "positive borrowed updates exist only in LoanManager.create_loan and both borrowing paths reach it; the raise guard "
        "of the margin rule is evaluated on every threshold cell of the computed range [0, inf) (sign analysis of the equity "
        "sum) and on the 'nothing borrowed' sentinel; early exits of the rule are tabulated over the orderings of "
-       "(updated, committed) borrowed amounts: none may be taken when a borrowed amount grows. The valuation arithmetic "
-       "(equity, used margin at last prices) is not claimed.",
+       "(updated, committed) borrowed amounts: none may be taken when a borrowed amount grows; the prices the rule reads "
+       "are the last bar's (every bar event replaces it unconditionally; a memo written by a price reader must be invalidated "
+       "by every bar event in both orientations of the pair). The valuation arithmetic (sums of equity and used margin) is "
+       "not claimed.",
   design_ref="DESIGN.md section 5, C10",
   note=_TB + "Positive prices; the denominator of the level is positive when something is borrowed.",
   technique="static analysis: threshold-cell evaluation of guards, sign analysis, CFG dominance, who-may-write"),
